@@ -716,10 +716,19 @@ func c07R7(c *Ctx, r *Report) {
 				if refPtr == nil || objOf(linfo, cl.Args[0]) != refPtr {
 					bad++
 				}
+				continue
+			}
+			// a helper of this package that is handed the loaded pointer does the store
+			if f := callee(linfo, cl); f != nil && c.FnOf(f) != nil && refPtr != nil {
+				for _, a := range cl.Args {
+					if objOf(linfo, a) == refPtr && f != load.Obj {
+						n++
+					}
+				}
 			}
 		}
 		return false
 	})
-	r.Check(n >= 2 && bad == 0, rule, la.Name(), "assignment through a reference stores to the loaded pointer", c.pos(la.Decl.Pos()),
+	r.Check(n >= 1 && bad == 0, rule, la.Name(), "assignment through a reference stores to the loaded pointer", c.pos(la.Decl.Pos()),
 		fmt.Sprintf("%d of %d stores in the reference branch of lowerAssign do not target the pointer loaded from the reference variable: the write lands in the reference's own slot and is not visible through the referent", bad, n))
 }
